@@ -18,12 +18,13 @@ import (
 // RegRun is the shared state of one registry simulation: the name pool of
 // this run and the recorded history of operations.
 type RegRun struct {
-	prefix string
-	pool   []string // names this run may register
-	never  []string // names this run never registers
-	seq    int      // global event sequence number (only one task runs at a time)
-	hist   []*regOp
-	Probes map[string]int
+	prefix      string
+	pool        []string // names this run may register
+	never       []string // names this run never registers
+	seq         int      // global event sequence number (only one task runs at a time)
+	hist        []*regOp
+	Probes      map[string]int
+	subPkgNamed string // a decoration name that reads as a sub-package style with a trailing section
 }
 
 type regOp struct {
@@ -47,9 +48,28 @@ var poolShapes = []string{"alpha", "Mixed Case", "ünï-cödé", "alpha.beta", "
 // the event log (pool indices do), so the log is independent of the counter.
 var execCounter int
 
-func NewRegRun(seed uint64, npool int) *RegRun {
+// builtinVariant is the variant number standing for the original decoration
+// of the built-in name that a run may overwrite.
+const builtinVariant = 100
+
+const overwrittenBuiltin = decoration.D_UTF8_DOUBLE
+
+func NewRegRun(seed uint64, npool int, overwriteBuiltin ...bool) *RegRun {
 	execCounter++
 	rr := &RegRun{prefix: fmt.Sprintf("r%x-%d-", seed&0xffffff, execCounter), Probes: map[string]int{}}
+	defer func() {
+		if len(overwriteBuiltin) > 0 && overwriteBuiltin[0] {
+			// this run may overwrite a built-in name ("existing entries may be
+			// overwritten").  The registry cannot forget, so the run starts by
+			// putting the original back — as a recorded registration that
+			// completed before everything else.
+			op := &regOp{task: -1, kind: "reg", name: overwrittenBuiltin, variant: builtinVariant, inv: rr.tick()}
+			decoration.RegisterDecorationName(overwrittenBuiltin, variantDeco(builtinVariant))
+			op.ret = rr.tick()
+			rr.hist = append(rr.hist, op)
+			rr.pool = append(rr.pool, overwrittenBuiltin)
+		}
+	}()
 	for i := 0; i < npool && i < len(poolShapes); i++ {
 		name := rr.prefix + poolShapes[i]
 		if i == 1 {
@@ -60,6 +80,7 @@ func NewRegRun(seed uint64, npool int) *RegRun {
 	// never registered — including names that only differ from a registered one
 	// by case or surrounding white space: the registry is an exact-match map
 	rr.never = []string{rr.prefix + "never", "", "no-such-decoration", "UTF8-Heavy", " none", "ascii-simple\n"}
+	rr.subPkgNamed = "html." + rr.prefix + "dark"
 	if len(rr.pool) > 0 {
 		rr.never = append(rr.never, strings.ToUpper(rr.pool[0]), rr.pool[0]+" ")
 	}
@@ -71,6 +92,9 @@ func (rr *RegRun) tick() int { rr.seq++; return rr.seq }
 // variantDeco is decoration number v: complete, and recognisable in rendered
 // output by its cross-piece glyph.
 func variantDeco(v int) decoration.Decoration {
+	if v == builtinVariant {
+		return decoration.UTF8BoxDouble()
+	}
 	g := variantGlyph(v)
 	if v%20 >= 16 {
 		// hand-built, not Populate()d: only fields the renderer reads are set
@@ -83,7 +107,12 @@ func variantDeco(v int) decoration.Decoration {
 }
 
 // variantGlyph is the glyph by which decoration v is recognised in output.
-func variantGlyph(v int) string { return string(rune('A' + v%20)) }
+func variantGlyph(v int) string {
+	if v == builtinVariant {
+		return "╔"
+	}
+	return string(rune('A' + v%20))
+}
 
 // nameFor resolves a scripted name index: pool names, then built-ins, then
 // never-registered names.
@@ -138,6 +167,12 @@ func (rr *RegRun) DoReg(task int, st *Step, log *EventLog) *Violation {
 			op.name = decoration.D_UTF8_HEAVY
 			rr.Probes["builtin_overwritten"]++
 		}
+		if st.C == 2 {
+			// a decoration registered under a name that also reads as "sub-package
+			// plus trailing section"
+			op.name = rr.subPkgNamed
+			rr.Probes["decoration_named_like_a_subpackage_style"]++
+		}
 		op.variant = pick(20, st.B)
 		op.inv = rr.tick()
 		rr.hist = append(rr.hist, op)
@@ -177,6 +212,11 @@ func (rr *RegRun) DoReg(task int, st *Step, log *EventLog) *Violation {
 			break
 		}
 		tt := texttable.Wrap(smallTable())
+		if pick(4, st.B) == 1 {
+			// the wrapper has already rendered successfully once (default decoration)
+			tt.Render()
+			rr.Probes["setdeco_on_a_wrapper_that_rendered_before"]++
+		}
 		op.inv = rr.tick()
 		rr.hist = append(rr.hist, op)
 		_, err := tt.SetDecorationNamed(op.name)
@@ -256,7 +296,7 @@ func (rr *RegRun) CheckC17() *Violation {
 		}
 		switch o.kind {
 		case "named":
-			if isBuiltin(o.name) {
+			if isBuiltin(o.name) && !rr.isPool(o.name) {
 				if o.got == decoration.EmptyDecoration {
 					return v("builtin-missing", "Named(%q) returned the empty decoration", o.name)
 				}
@@ -470,6 +510,43 @@ func (rr *RegRun) ProbeC19(registered map[string]int, inflight bool, trailerSeed
 			if _, ok := registered[p]; !ok && have[p] {
 				return v("listing-phantom", "ListStyles() lists %q, which was not registered", p)
 			}
+		}
+	}
+	// a decoration whose name reads as a sub-package style: the sub-package
+	// clause decides (that renderer, trailing section ignored); it is listed and
+	// it renders, and that is all the statement says about it
+	if _, ok := registered[rr.subPkgNamed]; ok {
+		if !have[rr.subPkgNamed] {
+			return v("listing-missing-registered", "ListStyles() lacks %q, which the application registered", rr.subPkgNamed)
+		}
+		t := auto.New(rr.subPkgNamed)
+		fill(t)
+		out, err := t.Render()
+		if typeName(t) != "html" {
+			return v("subpackage-not-selected", "auto.New(%q) is a %s: a sub-package name selects that renderer and ignores trailing sections, whatever decorations are registered", rr.subPkgNamed, typeName(t))
+		}
+		if err != nil || out == "" {
+			return v("listed-style-fails", "auto.New(%q).Render() returned err=%v", rr.subPkgNamed, err)
+		}
+		delete(registered, rr.subPkgNamed)
+		defer func() { registered[rr.subPkgNamed] = 0 }()
+	}
+	// one table wrapped twice through auto: the second wrapper must not inherit
+	// anything from the first
+	{
+		base := tabular.New()
+		fill(base)
+		first := builtinDecos[pick(len(builtinDecos), trailerSeed)]
+		if first == decoration.D_UTF8_HEAVY {
+			first = decoration.D_ASCII_SIMPLE
+		}
+		auto.Wrap(base, first).Render()
+		got, err := auto.Wrap(base, "texttable").Render()
+		fresh := tabular.New()
+		fill(fresh)
+		want, _ := auto.Wrap(fresh, "texttable").Render()
+		if err != nil || got != want {
+			return v("second-wrap-inherits", "a table wrapped as %q and then as \"texttable\" renders differently from a table only ever wrapped as \"texttable\" (err %v): %q", first, err, firstLine(got))
 		}
 	}
 	// every listed name that belongs to this run (or is built in) constructs and renders
